@@ -17,6 +17,8 @@ BASES: List[Tuple[str, A.Atom]] = [
     ("txn RekeyTo", [f"addr {A.LIT1}", "txn RekeyTo", "=="]),
     ("txn Fee", ["txn Fee", "int 1000", "<="]),
     ("txn Fee", ["int 1000", "txn Fee", ">="]),
+    # comparand the tool cannot evaluate (its documented heuristic): the credit belongs to the member that was read
+    ("txn Fee", ["txn Fee", "global MinTxnFee", "<="]),
     ("txn TypeEnum", ["txn TypeEnum", "int pay", "=="]),
     ("txn OnCompletion", ["txn OnCompletion", "int UpdateApplication", "!="]),
     ("txn Sender", ["txn Sender", f"addr {A.LIT1}", "=="]),
